@@ -232,6 +232,15 @@ func checkC17(p *Prog, r *Report) {
 	}
 	wcal := calleeOf(&write.Call)
 	keepB := map[*ssa.Function]bool{wcal: true}
+	for _, g := range p.FuncsIn(cmdGoosePkg) {
+		// rendering helpers are irrelevant to the gating and only multiply paths
+		if g != tr && g != wcal && len(blockOfCall(p, g, "("+coqPkg+".File).Write")) > 0 {
+			keepB[g] = true
+		}
+	}
+	if g := p.Func(coqPkg, "ImportToPath"); g != nil {
+		keepB[g] = true
+	}
 	if cal := calleeOf(&tpCall.Call); cal != nil {
 		keepB[cal] = true
 	}
